@@ -10,6 +10,8 @@ par_each par_map""".split())
 POOL = [
     ("zero", "0", "int", ""), ("one", "1", "int", ""), ("neg1", "(0-1)", "int", ""), ("two", "2", "int", ""), ("seven", "7", "int", ""),
     ("i63", "(2^63-1)", "int", "big"), ("ni63", "(0-2^63)", "int", "big"), ("ni63s", "int(\"-9223372036854775808\")", "int", "big"), ("i63s", "int(\"9223372036854775807\")", "int", "big"), ("i64", "2^64", "int", "big"), ("m20", "2^20", "int", "big"),
+    # machine-word operands whose product / sum leaves the machine word: 2^32-1 and ceil(sqrt(2^63))
+    ("i32m", "4294967295", "int", "big"), ("isq63", "3037000500", "int", "big"),
     ("bigone", "(%d - %d)" % (2 ** 70 + 1, 2 ** 70), "int", ""),
     ("half", "(1/2)", "rational", ""), ("nrat", "(0-3/2)", "rational", ""), ("rint", "(4/2)", "rational", ""),
     ("fzero", "0.0", "float", ""), ("f15", "1.5", "float", ""), ("fneg", "(0.0-2.5)", "float", ""), ("inf", "(1.0/0.0)", "float", "big"),
@@ -28,7 +30,7 @@ POOL = [
 ]
 
 # reduced pool for quick tiers: one or two representatives per kind plus the classic faults
-QUICK = ["zero", "one", "neg1", "i63", "ni63", "ni63s", "i64", "half", "f15", "nan", "inf", "cplx", "sempty", "su", "lempty", "l123", "lnest", "lmixed",
+QUICK = ["zero", "one", "neg1", "i63", "ni63", "ni63s", "i64", "i32m", "isq63", "half", "f15", "nan", "inf", "cplx", "sempty", "su", "lempty", "l123", "lnest", "lmixed",
          "dempty", "ddef", "vempty", "v12", "bempty", "bff", "rng", "rempty", "null", "finc", "fthrow", "tint"]
 
 # builtins for which a huge integer argument requests a huge amount of memory/time (resource, not semantics)
